@@ -7,6 +7,7 @@ import (
 	"slices"
 	"strings"
 	"sync"
+	"time"
 
 	"github.com/mycoria/mycoria/frame"
 	"github.com/mycoria/mycoria/m"
@@ -323,6 +324,7 @@ var initiatorSets = [][]int{{0}, {1}, {0, 1}, {1, 0}}
 
 // runSchedule executes one schedule given by choices; returns branching factors.
 func runSchedule(res *core.Result, r *rand.Rand, s setup, initSet int, retries int, choices []int, randomTail bool) (branch []int, ok bool) {
+	t0 := time.Now()
 	w, err := buildWorld(r, s, retries)
 	if err != nil {
 		res.Inconcl("world: %v", err)
@@ -397,6 +399,14 @@ func runSchedule(res *core.Result, r *rand.Rand, s setup, initSet int, retries i
 	}
 	schedule := strings.Join(w.trace, "; ")
 	sig, msg := w.verdict()
+	if core.StalledSince(t0) || time.Since(t0) > 4*time.Second {
+		// The hello handler's own timers (30 s for a pending request, 5 s cooldown) are part of the behaviour; a
+		// schedule runs in about a millisecond and passes time only through its explicit retry/expiry actions. If
+		// the process (or the whole VM) stood still for seconds meanwhile, real time leaked into the schedule:
+		// its verdict is not about the schedule that was meant, and it is discarded (counted).
+		res.Count("schedules_discarded_after_process_stall", 1)
+		return branch, true
+	}
 
 	if sig != "" {
 		// schedule pattern for the known-findings matcher: which requests were handled before the first response
